@@ -19,6 +19,15 @@ Pipeline:
         schedules (SwitchPolicyGen), they are replayed on ONE real Switch with real channelLinks
         (harness/htlcswitch/c09_switch_test.go) and TLC validates the recorded behaviours (SwitchPolicyTrace):
         handed to link L only if the check against the policy ADVERTISED for L's channel accepts.
+  (v)   link level with an auxiliary traffic shaper (ForwardPolicyAux.tla, keys "aux:..."): the exemption of custom
+        HTLCs from min_htlc/max_htlc and the shaper's bandwidth are named deviations that need the SHAPER'S answers;
+        TLC checks the machine on the bounds lattice x every answer of the shaper, dumps the lattice
+        (ForwardPolicyAuxGen), it is executed on the real link with an executor-side shaper
+        (harness/htlcswitch/c09_aux_test.go) and TLC validates every verdict (ForwardPolicyAuxTrace).
+  (vi)  incoming side (SwitchInbound.tla, keys "inbound:..."): the inbound fee the decision is taken with is the one
+        ADVERTISED for the incoming channel - HTLCs enter through the real processRemoteAdds of a real incoming
+        channelLink from forwarding packages the real channel wrote, first-time and re-forwarded after a restart
+        (harness/htlcswitch/c09_inbound_test.go, SwitchInboundTrace).
 """
 import copy
 import json
@@ -313,16 +322,25 @@ def gen_lattice(ck, thorough):
 
 
 # both executors are always injected together: the second `go test` finds the package already compiled
-HARNESS = ["htlcswitch/c09_test.go", "htlcswitch/c09_switch_test.go"]
+HARNESS = ["htlcswitch/c09_test.go", "htlcswitch/c09_switch_test.go", "htlcswitch/c09_aux_test.go",
+           "htlcswitch/c09_inbound_test.go"]
 
 
-def execute(ck, cases_path, name="exec", extra_overlay=None):
-    res = ck.go_test("./htlcswitch/", "^TestVerifC09ForwardPolicy$", HARNESS,
-                     env={"VERIF_CASES": cases_path}, name=name, timeout=1500,
+def execute(ck, cases_path, name="exec", extra_overlay=None, aux_cases=None):
+    """CheckHtlcForward/CheckHtlcTransit of a real link on every case; with aux_cases the traffic-shaper cases are
+    executed by the same test binary (trace_aux.ndjson next to trace.ndjson)."""
+    env = {"VERIF_CASES": cases_path}
+    pat = "^TestVerifC09ForwardPolicy$"
+    if aux_cases:
+        env["VERIF_AUX_CASES"] = aux_cases
+        pat = "^TestVerifC09(ForwardPolicy|Aux)$"
+    res = ck.go_test("./htlcswitch/", pat, HARNESS, env=env, name=name, timeout=1500,
                      extra_overlay=extra_overlay or EXTRA_OVERLAY)
     trace = os.path.join(res["dir"], "trace.ndjson")
     if res["rc"] != 0 or not os.path.exists(trace):
         raise Inconclusive("executor failed:\n" + res["out"][-3000:])
+    if aux_cases and not os.path.exists(os.path.join(res["dir"], "trace_aux.ndjson")):
+        raise Inconclusive("traffic-shaper executor wrote no trace:\n" + res["out"][-3000:])
     return trace
 
 
@@ -346,7 +364,9 @@ def lattice_chain(ck, thorough, fut_wits):
     with open(allcases, "a") as fo:
         for c in box + wit:
             fo.write(json.dumps(c, separators=(",", ":")) + "\n")
-    trace = execute(ck, allcases)
+    aux_cases, naux = gen_aux(ck)
+    trace = execute(ck, allcases, aux_cases=aux_cases)
+    ck.aux_result = (os.path.join(os.path.dirname(trace), "trace_aux.ndjson"), naux)
 
     lat_trace = os.path.join(ck.out, "trace_lattice.ndjson")
     big, nl, hist = [], 0, {}
@@ -379,6 +399,13 @@ def run(ck):
         return replay(ck, par)
     if os.environ.get("VERIF_C09_PARTS") == "switch":       # development: the switch-level part alone
         return switch_part(ck, thorough)
+    if os.environ.get("VERIF_C09_PARTS") == "inbound":      # development: the incoming-side part alone
+        inbound_part(ck, thorough)
+        ck.cov["rule"] = ck.cov["rule_inbound"]
+        ck.cov["trusted_base"] = ["TLC"]
+        return
+    if os.environ.get("VERIF_C09_PARTS") == "aux":          # development: the traffic-shaper part alone
+        return aux_part(ck)
 
     # ---- (i) model checking (TLC + Apalache symbolic), lattice generation and execution, side by side
     sdir = ck.scratch("apalache_sym")
@@ -386,9 +413,10 @@ def run(ck):
         fut_wits = ex.submit(sym_part, ck, sdir)
         fut_chain = ex.submit(lattice_chain, ck, thorough, fut_wits)
         fut_switch = ex.submit(switch_part, ck, thorough)
-        futs = [ex.submit(j) for j in mc_jobs(ck, thorough)]
+        fut_inbound = ex.submit(inbound_part, ck, thorough)
+        futs = [ex.submit(j) for j in mc_jobs(ck, thorough)] + [ex.submit(aux_mc, ck)]
         errs = []
-        for f in [fut_wits, fut_chain, fut_switch] + futs:
+        for f in [fut_wits, fut_chain, fut_switch, fut_inbound] + futs:
             try:
                 f.result()
             except Inconclusive as e:
@@ -406,6 +434,9 @@ def run(ck):
         ck.cov["traces_validated_against_impl"] += nl
         tlc_control(ck, lat_trace)
     ck.cov["distinct_nontrivial"] += nl     # the lattice dump is a set of distinct cases (TLC fingerprints)
+
+    # ---- (v) TLC validates every verdict of the traffic-shaper lattice
+    aux_judge(ck, *ck.aux_result)
 
     # ---- (ii) Apalache validates the 64-bit cases in parallel chunks
     boxrecs = [r for r in big if r.get("tag") == "box"]
@@ -474,21 +505,365 @@ def run(ck):
 
     ck.cov["samples"] += [dict(kind="lattice", first=_head(lat_trace, 2)),
                           dict(kind="box", first=boxrecs[:2]), dict(kind="witness", first=witrecs[:1])]
-    ck.cov["rule"] = (ck.cov.get("rule_switch", "") + "lattice: TLC-enumerated boundary lattice (every comparison's -1/0/+1 neighbourhood crossed, small "
+    ck.cov["rule"] = (ck.cov.get("rule_switch", "") + ck.cov.get("rule_inbound", "") +
+                      "aux: TLC-enumerated bounds lattice x every answer of a traffic shaper (configured or not, records "
+                      "none/wire/asset/both, channel handled or not, aux bandwidth around the link's), executed through "
+                      "CheckHtlcForward and CheckHtlcTransit of a real channelLink with an executor-side shaper, judged by TLC; "
+                      "lattice: TLC-enumerated boundary lattice (every comparison's -1/0/+1 neighbourhood crossed, small "
                       "integers), each case executed through CheckHtlcForward and CheckHtlcTransit of a real channelLink "
                       "and judged by TLC; box: seeded boundary-biased 64-bit cases judged by Apalache; distinct = distinct "
                       "input tuples; every case is a full decision (non-trivial by construction: inputs sit on or next to a threshold)")
     ck.cov["trusted_base"] = ["TLC 1.8.0 + CommunityModules (Json, CSV)", "Apalache 0.58.0 / Z3 (SMT integers)",
                               "executor projection: wire failure type + FailureDetail -> verdict name",
                               "link.Bandwidth() as reported by the real channel is an input of the judgement",
-                              "python generator of box inputs (placement only, no judgement)"]
+                              "python generator of box inputs (placement only, no judgement)",
+                              "executor-side AuxTrafficShaper (answers what the case says: IsCustomHTLC by record type, "
+                              "ShouldHandleTraffic, PaymentBandwidth)",
+                              "incoming side: executor plays the remote peer of the incoming channel (update_add_htlc + commitment "
+                              "dance through lnwallet) and the event loop of the incoming link object (processRemoteAdds / "
+                              "resolveFwdPkg on the packages loaded from disk); mock onion decoder of the package's tests"]
     ck.assumptions += ["must-agree domain = realistic box: out <= 10^12 msat, base < 2^32, rates <= 10^6 ppm, |inbound rate| <= 10^6 ppm, "
                        "heights/expiries/deltas < 2^31; outside it only the listed / Apalache-generated F5 and F5b witnesses are judged",
                        "max_htlc = 0 is read as 'no maximum' (lnd's encoding)",
-                       "no AuxTrafficShaper (custom channels) configured: bandwidth = channel.AvailableBalance()",
+                       "lattice/box/switch parts: no AuxTrafficShaper configured (bandwidth = channel.AvailableBalance()); the "
+                       "traffic-shaper part takes the shaper's answers as environment inputs (named deviations: a custom HTLC the "
+                       "shaper recognises is exempt from min/max_htlc, a channel it handles has the bandwidth it reports)",
+                       "incoming side: one add per forwarding package, legacy onion payloads naming a channel, the switch keeps "
+                       "running across link restarts (a duplicate of a committed circuit is dropped, not failed); the crash window "
+                       "between SetFwdFilter and Switch.ForwardPackets is played by the link's closed quit channel",
                        "switch level: one incoming (mock) link, channels without option-scid-alias / zero-conf, fixed height; "
                        "the remote peers are silent after update_add_htlc (wire tap), so handed-over HTLCs stay pending; "
                        "dust-exposure rejections of the switch are outside the explored amounts"]
+
+
+# --------------------------------------------------------------------------- (v) link level with a traffic shaper
+AUX_INVS = ["AuxDecisionAgrees", "ShaperAloneChangesNothing", "AcceptOutsideLimitsOnlyIfCustom",
+            "AcceptAboveBandwidthOnlyIfHandled"]
+AUX_BAD = [("recordsExempt", "min/max exemption granted when a shaper is configured and ANY custom record is present"),
+           ("shaperExempt", "min/max exemption granted whenever a shaper is configured"),
+           ("auxBwUnhandled", "the shaper's bandwidth used for a channel it does not handle")]
+AUX_GUARDS = [("exemptAccept", "an HTLC below min_htlc is accepted (custom HTLC)"),
+              ("wireRejected", "an HTLC with ordinary wire records on a node with a shaper is rejected for min_htlc"),
+              ("auxBwAccept", "an HTLC above the link's own bandwidth is accepted (shaper's bandwidth)"),
+              ("auxBwReject", "an HTLC within the link's own bandwidth is rejected for the shaper's bandwidth")]
+
+
+def aux_mc(ck):
+    x = ["-noGenerateSpecTE"]
+    ck.model_check(SPEC, "ForwardPolicyAuxMC", "ForwardPolicyAuxMC.cfg",
+                   "link level with a traffic shaper: decision machine on the bounds lattice x every answer of the shaper "
+                   "(fwd + transit)", name="mc_aux", timeout=900, workers=2, extra=x)
+    def bad(v, what):
+        r = ck.model_check(SPEC, "ForwardPolicyAuxMC", "ForwardPolicyAuxMC_bad.cfg", "traffic shaper (slice of the lattice), wrong variant must break the property: " + what,
+                           must_hold=False, name="mc_aux_bad_" + v, timeout=600, workers=2,
+                           constants={"Variant": '"%s"' % v}, extra=x)
+        if (r.violation or "").replace("invariant ", "") not in AUX_INVS:
+            raise Inconclusive("the invariants of ForwardPolicyAux do not see the wrong variant '%s' (%s)" % (v, r.violation))
+
+    def guard(g, what):
+        r = ck.model_check(SPEC, "ForwardPolicyAuxMC", "ForwardPolicyAuxMC_guard.cfg", "traffic shaper, vacuity guard: " + what,
+                           must_hold=False, name="mc_aux_guard_" + g, timeout=600, workers=2,
+                           constants={"Guard": '"%s"' % g}, extra=x)
+        if r.violation != "invariant GuardInv":
+            raise Inconclusive("vacuity: ForwardPolicyAux never reaches '%s' (%s)" % (what, r.violation))
+    with ThreadPoolExecutor(max_workers=2) as ex:
+        futs = [ex.submit(bad, v, w) for v, w in AUX_BAD] + [ex.submit(guard, g, w) for g, w in AUX_GUARDS]
+        for f in futs:
+            f.result()
+
+
+def gen_aux(ck):
+    r = ck.tlc(SPEC, "ForwardPolicyAuxGen", "ForwardPolicyAuxGen.cfg", name="gen_aux", mode="mc", workers=1,
+               timeout=900, extra=["-noGenerateSpecTE"])
+    p = os.path.join(r.dir, "cases_aux.ndjson")
+    if r.error or r.violation or not os.path.exists(p):
+        raise Inconclusive("traffic-shaper lattice generation failed: %s\n%s" % (r.error or r.violation, r.out[-3000:]))
+    n = sum(1 for _ in open(p))
+    if n != r.distinct - 1:
+        raise Inconclusive("traffic-shaper lattice dump has %d lines for %d distinct cases" % (n, r.distinct - 1))
+    core.log("  [gen] traffic-shaper lattice: %d distinct cases, %.0fs" % (n, r.wall))
+    ck.cov["model_runs"].append(dict(what="generate traffic-shaper lattice", module="ForwardPolicyAuxGen", cases=n,
+                                     wall_s=round(r.wall, 1)))
+    return p, n
+
+
+def aux_validate(ck, trace, name):
+    return ck.validate(SPEC, "ForwardPolicyAuxTrace", "ForwardPolicyAuxTrace.cfg", trace, name=name, timeout=900)
+
+
+def aux_judge(ck, trace, naux):
+    """TLC validates every recorded verdict of the traffic-shaper lattice; negative controls on an accepted trace."""
+    hist, n = {}, 0
+    with open(trace) as fi:
+        for line in fi:
+            n += 1
+            m = re.search(r'"shaper":(\d),"rec":"([^"]*)","handles":(\d).*"v":"([^"]*)","vt":"([^"]*)"', line)
+            k = "shaper%s/%s/handles%s:%s" % (m.group(1), m.group(2), m.group(3), m.group(4))
+            hist[k] = hist.get(k, 0) + 1
+    if n != naux:
+        raise Inconclusive("traffic-shaper executor recorded %d cases, expected %d" % (n, naux))
+    ck.cov["evaluations"] += 2 * n
+    ck.cov["verdicts_aux"] = hist
+    v = aux_validate(ck, trace, "val_aux")
+    if not v["ok"]:
+        ln = v["line"] or 1
+        bad = None
+        with open(trace) as fi:
+            for i, line in enumerate(fi, 1):
+                if i == ln:
+                    bad = json.loads(line)
+                    break
+        p = os.path.join(ck.out, "failing_aux_case.ndjson")
+        core.write_ndjson(p, [bad] if bad else [])
+        inv = (v["invariant"] or "").replace("invariant ", "")
+        a = bad or {}
+        ck.violation("aux:%s:shaper%s/%s/handles%s" % (inv, a.get("shaper"), a.get("rec"), a.get("handles")),
+                     "real channelLink with a traffic shaper deviates from spec/ForwardPolicy/ForwardPolicyAux (%s): %s"
+                     % (inv, json.dumps(bad)), files={"cases_aux.ndjson": p}, text=v["cex"])
+        return
+    for k in ("shaper1/wire/handles0:AmountBelowMinimum", "shaper1/asset/handles0:ok", "shaper1/both/handles1:ok",
+              "shaper1/none/handles1:InsufficientBalance", "shaper0/asset/handles0:HtlcExceedsMax"):
+        if not hist.get(k):
+            raise Inconclusive("vacuity: no recorded traffic-shaper case '%s'" % k)
+    ck.cov["traces_validated_against_impl"] += n
+    ck.cov["distinct_nontrivial"] += n      # the dump is a set of distinct cases (TLC fingerprints)
+    # negative controls: ONE recorded field of an accepted trace is corrupted
+    recs = _head(trace, 100000)
+    ctl = []
+    muts = [("v: AmountBelowMinimum -> ok on a case with a shaper and ordinary wire records", "ForwardAgreesAux",
+             lambda r: r["shaper"] == 1 and r["rec"] == "wire" and r["v"] == "AmountBelowMinimum", lambda r: r.update(v="ok")),
+            ("rec: asset -> wire on an accepted custom HTLC below min_htlc", "ForwardAgreesAux",
+             lambda r: r["shaper"] == 1 and r["rec"] == "asset" and r["v"] == "ok" and r["out"] < r["minH"], lambda r: r.update(rec="wire")),
+            ("handles: 1 -> 0 on an HTLC accepted above the link's own bandwidth", "ForwardAgreesAux",
+             lambda r: r["shaper"] == 1 and r["handles"] == 1 and r["v"] == "ok" and r["out"] > r["bw"], lambda r: r.update(handles=0)),
+            ("vt: -> ok on a transit rejection with a shaper", "TransitAgreesAux",
+             lambda r: r["shaper"] == 1 and r["vt"] != "ok", lambda r: r.update(vt="ok"))]
+    for k, (mut, expect, pick, corrupt) in enumerate(muts):
+        i = next((j for j, r in enumerate(recs) if pick(r)), None)
+        if i is None:
+            raise Inconclusive("traffic-shaper negative control: no recorded case for '%s'" % mut)
+        lo = max(0, i - 50)
+        bad = copy.deepcopy(recs[lo:i + 50])
+        corrupt(bad[i - lo])
+        p = os.path.join(ck.out, "control_aux_%d.ndjson" % k)
+        core.write_ndjson(p, bad)
+        v = aux_validate(ck, p, "control_aux_%d" % k)
+        inv = (v["invariant"] or "").replace("invariant ", "")
+        if v["ok"]:
+            raise Inconclusive("traffic-shaper negative control accepted (%s): trace validation is not binding" % mut)
+        if v["line"] != i - lo + 1 or inv != expect:
+            raise Inconclusive("traffic-shaper negative control '%s' rejected by %s at line %s, expected %s at line %d"
+                               % (mut, inv, v["line"], expect, i - lo + 1))
+        ctl.append(dict(mutation=mut + " (traffic-shaper trace)", rejected_by=v["invariant"], at_line=v["line"]))
+    ck.cov.setdefault("negative_controls", []).extend(ctl)
+    ck.cov["samples"].append(dict(kind="aux", first=[r for r in recs if r["shaper"] == 1 and r["rec"] == "wire"][:1]))
+
+
+def aux_part(ck):
+    """development: the traffic-shaper part alone (VERIF_C09_PARTS=aux)."""
+    with ThreadPoolExecutor(max_workers=2) as ex:
+        fmc = ex.submit(aux_mc, ck)
+        p, n = gen_aux(ck)
+        res = ck.go_test("./htlcswitch/", "^TestVerifC09Aux$", HARNESS, env={"VERIF_AUX_CASES": p}, name="exec_aux",
+                         timeout=1500, extra_overlay=EXTRA_OVERLAY)
+        trace = os.path.join(res["dir"], "trace_aux.ndjson")
+        if res["rc"] != 0 or not os.path.exists(trace):
+            raise Inconclusive("traffic-shaper executor failed:\n" + res["out"][-3000:])
+        aux_judge(ck, trace, n)
+        fmc.result()
+    ck.cov["rule"] = "traffic-shaper lattice alone (development)"
+    ck.cov["trusted_base"] = ["TLC"]
+
+
+
+# --------------------------------------------------------------------------- (vi) incoming side
+IN_INVS = ["InLinkHoldsAdvertised", "InboundFeeAsAdvertised"] + ["PolicyPropagated", "HandedOnlyIfAdvertisedAccepts",
+           "FailedOnlyIfNoLinkAccepts", "FailureNamesViolatedRule", "UnknownNextPeerOnlyIf", "DecisionAsAdvertised"]
+IN_BAD = [("replayZeroFee", "a re-forwarded add (package already Processed) carries the zero inbound fee"),
+          ("restartDefault", "the link created at a restart holds the default (zero) inbound fee, not the advertised one")]
+IN_GUARDS = [("redecided", "a Processed package without circuit is decided again after a restart"),
+             ("redecidedFee", "... and the inbound fee changes that decision"),
+             ("dropped", "a package whose circuit is committed is processed again")]
+
+
+def inbound_mc(ck, thorough):
+    x = ["-noGenerateSpecTE"]
+    ck.model_check(SPEC, "SwitchInboundMC", "SwitchInboundMC.cfg",
+                   "incoming side: every behaviour of <= %d steps (inbound-fee updates, adds locked in, packages processed "
+                   "with / without reaching the switch, restarts), 5 inbound fees x 6 incoming amounts on their thresholds"
+                   % (7 if thorough else 6), name="mc_inbound", timeout=1700, workers=4,
+                   constants={"MaxSteps": 7} if thorough else None, extra=x)
+    for v, what in IN_BAD:
+        r = ck.model_check(SPEC, "SwitchInboundMC", "SwitchInboundMC.cfg", "incoming side, wrong variant must break the property: " + what,
+                           must_hold=False, name="mc_inbound_bad_" + v, timeout=600, workers=2,
+                           constants={"Variant": '"%s"' % v}, extra=x)
+        if (r.violation or "").replace("invariant ", "") not in IN_INVS:
+            raise Inconclusive("the invariants of SwitchInbound do not see the wrong variant '%s' (%s)" % (v, r.violation))
+    for g, what in IN_GUARDS:
+        r = ck.model_check(SPEC, "SwitchInboundMC", "SwitchInboundMC_guard.cfg", "incoming side, vacuity guard: " + what,
+                           must_hold=False, name="mc_inbound_guard_" + g, timeout=600, workers=2,
+                           constants={"Guard": '"%s"' % g}, extra=x)
+        if r.violation != "invariant GuardInv":
+            raise Inconclusive("vacuity: SwitchInbound never reaches '%s' (%s)" % (what, r.violation))
+
+
+def inbound_execute(ck, sched_dir, name="exec_inbound"):
+    res = ck.go_test("./htlcswitch/", "^TestVerifC09Inbound$", HARNESS, env={"VERIF_INBOUND": sched_dir, "VERIF_PAR": 4},
+                     name=name, timeout=900, extra_overlay=EXTRA_OVERLAY)
+    trace = os.path.join(res["dir"], "trace_inbound.ndjson")
+    if res["rc"] != 0 or not os.path.exists(trace):
+        raise Inconclusive("incoming-side executor failed:\n" + res["out"][-3000:])
+    return trace
+
+
+def inbound_validate(ck, trace, name):
+    return ck.validate(SPEC, "SwitchInboundTrace", "SwitchInboundTrace.cfg", trace, name=name, timeout=900)
+
+
+IN_SCHED_KEYS = ("a", "c", "set", "pol", "rt", "rx", "h", "hn", "init", "k", "reach", "fee")
+
+
+def inbound_report(ck, recs, v):
+    inv = (v["invariant"] or "").replace("invariant ", "")
+    ln = v["line"] or 1
+    a, b = core.slice_trace(recs, ln, _is_reset)
+    one = recs[a:b]
+    bad = recs[min(ln, len(recs)) - 1]
+    if inv == "EnvAsModel":
+        raise Inconclusive("incoming-side fixture did not behave as the model assumes at step %d of %s: %s"
+                           % (ln - a - 1, bad.get("plan"), json.dumps(bad)[:1500]))
+    replayed = bad.get("a") == "Proc" and any(r.get("a") == "Proc" and r.get("k") == bad.get("k") for r in one[:ln - a - 1])
+    key = "inbound:%s:%s%s" % (inv, bad.get("a"), ":reforwarded" if replayed else "")
+    tp = os.path.join(ck.out, "failing_inbound_trace.ndjson")
+    core.write_ndjson(tp, one)
+    sp = os.path.join(ck.out, "failing_inbound_schedule.ndjson")
+    core.write_ndjson(sp, [{k: r[k] for k in IN_SCHED_KEYS} for r in one])
+    lock = next((r for r in one if r.get("a") == "LockIn" and r.get("npkg") == bad.get("k")), {})
+    what = ("package %s (add %s -> %s, %s) processed, reach=%s: packet inbound fee %s, outcome %s %s %s"
+            % (bad.get("k"), json.dumps(lock.get("h")), lock.get("rx"), "re-forwarded" if replayed else "first time",
+               bad.get("reach"), json.dumps(bad.get("pif")), bad.get("res"), bad.get("to"), bad.get("v"))
+            if bad.get("a") == "Proc" else bad.get("a"))
+    ck.violation(key, "real incoming link + Switch deviate from spec/ForwardPolicy/SwitchInbound (%s) at step %d of schedule %s: "
+                      "%s; incoming link holds inbound fee %s" % (inv, ln - a - 1, bad.get("plan"), what, json.dumps(bad.get("enfin"))),
+                 files={"trace_inbound.ndjson": tp, "schedule_inbound.ndjson": sp}, text=v["cex"])
+    return key
+
+
+def inbound_stats(recs):
+    st = dict(behaviours=0, steps=0, updates=0, lockins=0, processed=0, decided=0, handed=0, failed_fee=0, unreached=0,
+              restarts=0, redecided=0, redecided_fee_matters=0, dropped_duplicates=0)
+    distinct = set()
+    seen_proc, fee, adds = set(), {"base": 0, "rate": 0}, {}
+    for r in recs:
+        a = r["a"]
+        if a == "Reset":
+            st["behaviours"] += 1
+            seen_proc, fee, adds = set(), {"base": 0, "rate": 0}, {}
+            continue
+        st["steps"] += 1
+        if a == "UpdIn":
+            st["updates"] += 1
+            fee = r["fee"]
+        elif a == "LockIn":
+            st["lockins"] += 1
+            adds[r["npkg"]] = (r["h"], r["rx"])
+        elif a == "Restart":
+            st["restarts"] += 1
+        elif a == "Proc":
+            st["processed"] += 1
+            again = r["k"] in seen_proc
+            seen_proc.add(r["k"])
+            if r["res"] in ("fwd", "fail"):
+                st["decided"] += 1
+                st["handed"] += r["res"] == "fwd"
+                st["failed_fee"] += r["v"] == "FeeInsufficient"
+                if again:
+                    st["redecided"] += 1
+                    if fee != {"base": 0, "rate": 0}:
+                        st["redecided_fee_matters"] += 1
+                distinct.add(core.sha(json.dumps([adds.get(r["k"]), fee, again, r["reg"], r["bw"]], sort_keys=True)))
+            elif r["reach"] == 0:
+                st["unreached"] += 1
+            elif r["circb"] == 1:
+                st["dropped_duplicates"] += 1
+    return st, len(distinct)
+
+
+def inbound_controls(ck, recs):
+    muts = [
+        ("res: a re-forwarded add failed with fee_insufficient turned into a hand-over to the requested channel",
+         "HandedOnlyIfAdvertisedAccepts",
+         lambda r, one, i: r["a"] == "Proc" and r["v"] == "FeeInsufficient" and any(x["a"] == "Proc" and x["k"] == r["k"] for x in one[:i]),
+         lambda r, one: r.update(res="fwd", v="ok", to=next(x["rx"] for x in one if x["a"] == "LockIn" and x["npkg"] == r["k"]))),
+        ("pif: the inbound fee carried by the packet zeroed on a step with a non-zero advertised fee", "PacketCarriesAdvertisedFee",
+         lambda r, one, i: r["a"] == "Proc" and r["npk"] > 0 and r["pif"] != {"base": 0, "rate": 0},
+         lambda r, one: r.update(pif={"base": 0, "rate": 0})),
+        ("enfin: the incoming link's inbound fee after an update left at the old value", "InLinkHoldsAdvertisedFee",
+         lambda r, one, i: r["a"] == "UpdIn" and i > 0 and one[i - 1]["enfin"] != r["enfin"],
+         lambda r, one: r.update(enfin={"base": r["enfin"]["base"] + 1, "rate": r["enfin"]["rate"]})),
+        ("res: the decision of a re-forwarded add without circuit removed (as if dropped)", "DecidedWhenModelDecides",
+         lambda r, one, i: r["a"] == "Proc" and r["res"] in ("fwd", "fail") and any(x["a"] == "Proc" and x["k"] == r["k"] for x in one[:i]),
+         lambda r, one: r.update(res="none", to="-", v="-")),
+    ]
+    out = []
+    bounds = [i for i, r in enumerate(recs) if r["a"] == "Reset"] + [len(recs)]
+    for k, (mut, expect, pick, corrupt) in enumerate(muts):
+        found = None
+        for a, b in zip(bounds, bounds[1:]):
+            one = recs[a:b]
+            i = next((j for j, r in enumerate(one) if pick(r, one, j)), None)
+            if i is not None:
+                found = (copy.deepcopy(one), i)
+                break
+        if found is None:
+            raise Inconclusive("incoming-side negative control: no recorded step for '%s'" % mut)
+        one, i = found
+        corrupt(one[i], one)
+        p = os.path.join(ck.out, "control_inbound_%d.ndjson" % k)
+        core.write_ndjson(p, one)
+        v = inbound_validate(ck, p, "control_inbound_%d" % k)
+        inv = (v["invariant"] or "").replace("invariant ", "")
+        if v["ok"]:
+            raise Inconclusive("incoming-side negative control accepted (%s): trace validation is not binding" % mut)
+        if v["line"] != i + 1 or inv != expect:
+            raise Inconclusive("incoming-side negative control '%s' rejected by %s at line %s, expected %s at line %d"
+                               % (mut, inv, v["line"], expect, i + 1))
+        out.append(dict(mutation=mut + " (incoming-side trace)", rejected_by=v["invariant"], at_line=v["line"]))
+    ck.cov.setdefault("negative_controls", []).extend(out)
+
+
+def inbound_part(ck, thorough):
+    """(vi) model check SwitchInbound, generate schedules, replay them on the real incoming link + Switch, validate."""
+    with ThreadPoolExecutor(max_workers=2) as ex:
+        fmc = ex.submit(inbound_mc, ck, thorough)
+        files = ck.generate(SPEC, "SwitchInboundGen", "SwitchInboundGen.cfg", 400 if thorough else 60, 40,
+                            constants={"MaxLen": 31 if thorough else 25, "MaxPkgs": 5 if thorough else 4},
+                            name="gen_inbound", timeout=1500)
+        trace = inbound_execute(ck, os.path.dirname(files[0]))
+        recs = core.read_ndjson(trace)
+        st, distinct = inbound_stats(recs)
+        if st["behaviours"] != len(files):
+            raise Inconclusive("incoming-side executor recorded %d behaviours for %d schedules" % (st["behaviours"], len(files)))
+        ck.cov["evaluations"] += st["steps"]
+        ck.cov["incoming_side"] = st
+        v = inbound_validate(ck, trace, "val_inbound")
+        if not v["ok"]:
+            inbound_report(ck, recs, v)
+        else:
+            for k in ("redecided", "redecided_fee_matters", "dropped_duplicates", "unreached", "failed_fee", "handed", "restarts"):
+                if not st[k]:
+                    raise Inconclusive("vacuity: no '%s' among the executed incoming-side steps" % k)
+            ck.cov["traces_validated_against_impl"] += st["behaviours"]
+            ck.cov["distinct_nontrivial"] += distinct
+            inbound_controls(ck, recs)
+        fmc.result()
+    ck.cov["samples"].append(dict(kind="inbound", first=[r for r in recs if r["a"] == "Proc" and r["res"] in ("fwd", "fail")][:1]))
+    ck.cov["rule_inbound"] = ("incoming side: TLC-simulated behaviours of SwitchInbound (inbound-fee updates, adds locked in through "
+                              "the real commitment dance, forwarding packages processed by the real processRemoteAdds / resolveFwdPkg "
+                              "with the batch reaching Switch.ForwardPackets or not, restarts) on a real incoming channelLink + the "
+                              "real Switch, every step validated by TLC; distinct = distinct (add, advertised inbound fee, "
+                              "first/re-forwarded, link state, bandwidths) of decided packages; ")
+
 
 
 # --------------------------------------------------------------------------- (iv) switch level
